@@ -161,6 +161,53 @@ impl<T: TerminationCondition> WithBrancher for Iterate<'_, T> {
     }
 }
 
+/// Complete iteration that keeps calling `next_solution` on the same iterator after an
+/// `Unknown` (an interrupt that does not stay triggered), up to `max_unknowns` times.
+pub struct IterateResuming<'a, T: TerminationCondition> {
+    pub ids: &'a [DomainId],
+    pub term: &'a mut T,
+    pub cap: usize,
+    pub max_unknowns: usize,
+}
+
+impl<T: TerminationCondition> WithBrancher for IterateResuming<'_, T> {
+    /// (solutions, end, number of Unknown results that were resumed)
+    type Out = (Vec<Vec<i32>>, IterEnd, usize);
+    fn call<B: Brancher>(self, solver: &mut Solver, brancher: &mut B) -> Self::Out {
+        let IterateResuming { ids, term, cap, max_unknowns } = self;
+        let mut sols: Vec<Vec<i32>> = vec![];
+        let mut unknowns = 0usize;
+        let r = guard(|| {
+            let mut it = solver.get_solution_iterator(brancher, term);
+            loop {
+                match it.next_solution() {
+                    IteratedSolution::Solution(s, _, _) => match extract(&s, ids) {
+                        Ok(v) => {
+                            sols.push(v);
+                            if sols.len() > cap {
+                                return IterEnd::CapExceeded;
+                            }
+                        }
+                        Err(e) => return IterEnd::Broken(e),
+                    },
+                    IteratedSolution::Finished => return IterEnd::Finished,
+                    IteratedSolution::Unsatisfiable => return IterEnd::Unsat,
+                    IteratedSolution::Unknown => {
+                        unknowns += 1;
+                        if unknowns > max_unknowns {
+                            return IterEnd::Unknown;
+                        }
+                    }
+                }
+            }
+        });
+        match r {
+            Ok(e) => (sols, e, unknowns),
+            Err(p) => (sols, IterEnd::Panic(p), unknowns),
+        }
+    }
+}
+
 #[derive(Debug, Clone, PartialEq, Eq)]
 pub enum OptOut {
     Optimal(Vec<i32>),
